@@ -67,11 +67,14 @@ theorem C02_upgrade_hands_over_all (c : Consts) (svc : Service) (dec : Bytes →
   exact u i hs
 
 /-- **C02 feed = whole**: feeding the chunks one at a time through the
-    documented loop (tail prepended, in-memory reader refilled `cap` bytes at a
-    time) yields the replies and the status of one call on the whole stream
-    under any read schedule; in varlink mode the final tail is the same; after
-    an upgrade the bytes seen by the upgraded handler plus the pending tail are
-    exactly the stream after the upgrading request. -/
+    documented loop (only the returned tail is prepended to the next chunk;
+    in-memory reader refilled `cap` bytes at a time) yields the replies and the
+    status of one call on the whole stream under any read schedule; in varlink
+    mode the final tail is the same; after an upgrade — provided the loop did
+    not have to drop bytes that `handle` left unread in a per-step reader
+    (`dropped = []`, see the two theorems below) — the bytes seen by the
+    upgraded handler plus the pending tail are exactly the stream after the
+    upgrading request. -/
 theorem C02_feed_eq_whole (c : Consts) (svc : Service) (dec : Bytes → Frame) (cap : Nat)
     (hc : 0 < cap) (chunks reads : List Bytes) (hne : NoEmpty reads)
     (he : reads.flatten = chunks.flatten) :
@@ -79,7 +82,7 @@ theorem C02_feed_eq_whole (c : Consts) (svc : Service) (dec : Bytes → Frame) (
     let h := handle c svc dec reads
     f.out = h.groups.flatten ∧ f.status = h.status ∧
     (h.status = .eof → f.tail = h.tail) ∧
-    (∀ i, h.status = .upgraded i → f.seen ++ f.tail = h.tail ++ h.rest.flatten) := by
+    (∀ i, h.status = .upgraded i → f.dropped = [] → f.seen ++ f.tail = h.tail ++ h.rest.flatten) := by
   have fi := feed_inv c svc dec cap hc chunks
   have s := handle_spec c svc dec reads hne
   simp only [he] at s
@@ -97,10 +100,35 @@ theorem C02_feed_eq_whole (c : Consts) (svc : Service) (dec : Bytes → Frame) (
     rw [st] at hs
     rw [hs] at fs
     rw [(e hs).1, fs.2.1]
-  · intro i hs
+  · intro i hs hd
     rw [st] at hs
     rw [hs] at fs
-    rw [u i hs, fs.2.2.2]
+    rw [u i hs, fs.2.2.2 hd]
+
+/-- **C02 nothing is lost (partial)**: when the stream is no longer than the
+    internal buffer, every input of every `handle` call is read in one piece,
+    nothing stays behind in the caller's reader and the documented loop hands
+    every byte after an upgrading request to the upgraded handler. -/
+theorem C02_feed_upgrade_complete_partial (c : Consts) (svc : Service) (dec : Bytes → Frame) (cap : Nat)
+    (hc : 0 < cap) (chunks : List Bytes) (hfit : chunks.flatten.length ≤ cap) :
+    (feed c svc dec cap chunks).dropped = [] := by
+  have := feed_nothing_dropped c svc dec cap hc chunks {} 0 rfl (by simp) (by omega)
+  simpa [feed] using this
+
+/-- **C02 counterexample to the unrestricted statement**: with a 4-byte buffer,
+    an upgrading request followed in the same chunk by 6 more bytes leaves 4 of
+    them unread in the caller's slice; the documented loop (which feeds only
+    the returned tail again) loses them.  With the real 8 KiB buffer this needs
+    more than 8 KiB behind an upgrade request in one chunk — recorded as a
+    known finding, not repaired (handle() cannot drain a blocking reader). -/
+theorem C02_feed_upgrade_counterexample :
+    let c : Consts := { serviceDesc := "" }
+    let up : Iface := { name := "a", desc := "", script := fun _ => [.toUpgraded, .reply (Reply.params none)] }
+    let svc : Service := { vendor := "", product := "", version := "", url := "", ifaces := [up] }
+    let dec : Bytes → Frame := fun _ => .req { method := "a.U", upgrade := some true }
+    (feed c svc dec 4 [[1, 0, 5, 6, 7, 8, 9, 10]]).dropped = [7, 8, 9, 10] ∧
+    (feed c svc dec 4 [[1, 0, 5, 6, 7, 8, 9, 10]]).tail = [5, 6] := by
+  decide
 
 /-- **C02 one byte at a time** is an instance: every byte its own chunk. -/
 theorem C02_bytewise (c : Consts) (svc : Service) (dec : Bytes → Frame) (bs : Bytes) (hb : bs ≠ []) :
